@@ -7,7 +7,7 @@ Transcribed from `src/Decompressor.cpp`, `src/inc/Compression.h` and `Face::Tabl
 (`src/Face.cpp`).  Pointers are indices; `src` is exactly the compressed input, `out` exactly the
 `out_size` bytes the caller provided (with whatever they contained before the call); every read goes
 through `rd`, every store through `wr`.  Word copies (`unaligned_copy<8>`) read eight bytes and then
-write eight bytes, as `memcpy` does.  `u32` quantities wrap.
+write eight bytes, as `memcpy` does.  `u32` quantities wrap; the length accumulator of `read_literal` saturates.
 Not modelled: pointer wrap-around (`src < literal` can never hold for indices).
 -/
 namespace GrVerif.Lz4
@@ -19,6 +19,8 @@ def wr (b : Buf) (i v : Nat) : Except Fault Buf :=
 
 def WS : Nat := Gen.wordSize
 def u32 (x : Nat) : Nat := x % 2^32
+/-- `l > 0xffffffffu - b ? 0xffffffffu : l + b` -/
+def sat32 (x : Nat) : Nat := if x > 2^32 - 1 then 2^32 - 1 else x
 /-- `align(p)` -/
 def align (p : Nat) : Nat := (p + (WS - 1)) / WS * WS
 
@@ -67,7 +69,7 @@ def readLitGo (src : Buf) (e : Nat) : Nat → Nat → Nat → Except Fault (Nat 
   | 0, s, l => .ok (s, l)
   | fuel + 1, s, l => do
     let b ← rd src s
-    let l := u32 (l + b)
+    let l := sat32 (l + b)
     let s := s + 1
     if b = 0xff ∧ s ≠ e then readLitGo src e fuel s l else pure (s, l)
 
